@@ -7,6 +7,7 @@ pub mod c08;
 pub mod c09;
 pub mod c10;
 pub mod c11;
+pub mod c15;
 pub mod c16;
 pub mod c19;
 pub mod c22;
@@ -16,7 +17,7 @@ use crate::framework::Check;
 
 pub fn all() -> Vec<&'static dyn Check> {
     vec![
-        &c02::C02, &c04::C04, &c05::C05, &c06::C06, &c07::C07, &c08::C08, &c09::C09, &c10::C10, &c11::C11, &c16::C16, &c16::C17,
+        &c02::C02, &c04::C04, &c05::C05, &c06::C06, &c07::C07, &c08::C08, &c09::C09, &c10::C10, &c11::C11, &c15::C15, &c16::C16, &c16::C17,
         &c19::C19, &c22::C22, &c23::C23,
     ]
 }
